@@ -62,6 +62,15 @@ impl std::fmt::Debug for Zst {
     }
 }
 
+/// A second zero-sized type that is never equal to a `Zst` (NaN-like): zero-sized elements may
+/// still carry a non-trivial `PartialEq`.
+pub struct ZNe;
+impl PartialEq<ZNe> for Zst {
+    fn eq(&self, _: &ZNe) -> bool {
+        false
+    }
+}
+
 pub const ZST_NS: [usize; 10] = [
     1,
     2,
@@ -448,10 +457,20 @@ impl<const N: usize> ZEx<N> {
                         (*b == *o, (*b).cmp(o), h1.finish(), h2.finish())
                     }) {
                         if eq != (len == ly) || ord != len.cmp(&ly) || (len == ly && h1 != h2) {
-                            self.fail(cls::ZST, format!("comparison of buffers with {len} and {ly} elements: eq {eq}, cmp {ord:?}, hashes equal {}", h1 == h2));
+                            self.fail(cls::ZST | cls::CMP, format!("comparison of buffers with {len} and {ly} elements: eq {eq}, cmp {ord:?}, hashes equal {}", h1 == h2));
                         }
                     }
                     self.bufs[y] = Some(other);
+                    // equality with slices / arrays of a type that never compares equal
+                    if self.fail.is_none() && len <= 4 {
+                        let sl: Vec<ZNe> = (0..len).map(|_| ZNe).collect();
+                        if let Some((e1, e2)) = self.call(false, || (*b == sl[..], *b == &sl[..])) {
+                            self.allocs = 0;
+                            if e1 != (len == 0) || e2 != (len == 0) {
+                                self.fail(cls::ZST | cls::CMP, format!("buffer of {len} zero-sized elements == slice of {len} never-equal elements gave {e1}/{e2}"));
+                            }
+                        }
+                    }
                 }
                 Op::DebugFmt => {
                     let mut hw = crate::deque_sess::HookWriter(String::new());
@@ -547,7 +566,12 @@ impl<const N: usize> ZEx<N> {
             let (c, d) = (CREATED.with(|c| c.get()), DESTROYED.with(|c| c.get()));
             let live = (self.len[0] + self.len[1] + self.hand.len()) as u64;
             if c - d - self.leaked != live {
-                self.fail(cls::ZST | cls::LEDGER, format!("{c} elements created, {d} destructor runs, but {live} elements are in the buffers or with the caller"));
+                let own = match st.op {
+                    Op::FromArray | Op::CloneTo | Op::CloneFrom | Op::IntoIter | Op::ToVec => cls::CTOR,
+                    Op::Drain => cls::DRAIN,
+                    _ => 0,
+                };
+                self.fail(cls::ZST | cls::LEDGER | own, format!("{c} elements created, {d} destructor runs, but {live} elements are in the buffers or with the caller"));
             }
         }
         if self.fail.is_none() && !may_alloc && self.allocs > 0 && !self.panicked {
